@@ -58,6 +58,42 @@ def expected_at(bounds, off):
     return k, off in bounds
 
 
+def frame_bounds(data):
+    """record boundaries of a flow file by an independent reading of the framing (<decimal length>:<payload><tag>),
+    not by asking the writer where it stood; None if the bytes are not a sequence of such frames"""
+    out, i = [0], 0
+    while i < len(data):
+        j = i
+        while j < len(data) and 0x30 <= data[j] <= 0x39: j += 1
+        if j == i or j >= len(data) or data[j] != 0x3a: return None
+        end = j + 1 + int(data[i:j]) + 1
+        if end > len(data): return None
+        out.append(end); i = end
+    return out
+
+
+def judge_cut(ek, res, same):
+    """C37 on one truncated file: exactly the `ek` completely written flows (same = their states equal the written ones,
+    in order), then a clean end or a flow-read error. Which of the two endings occurs is NOT demanded by the statement."""
+    return res[0] == ek and res[1] in ("clean", "flowRead") and bool(same)
+
+
+def judge_stream_file(res, got, finished, pending):
+    """C37 on a stream file at some moment: it reads (clean end or flow-read error, nothing else) as all finished flows in
+    order; when done() has run, additionally the flows that were still active (`pending`, any order) after them and nothing else."""
+    if res[1] not in ("clean", "flowRead") or res[0] != len(got): return False
+    n = len(finished)
+    if got[:n] != finished: return False
+    rest = got[n:]
+    return sorted(map(json.dumps, rest)) == sorted(map(json.dumps, pending))
+
+
+def restart_allowed(event, same_path, plus):
+    """the only event after which an already written stream file may start afresh although it is the file being streamed to:
+    the USER sets save_stream_file to that path in overwrite mode. Never a filter change, never an append-mode spec, never a hook."""
+    return event == "file" and same_path and not plus
+
+
 def sample_offsets(r, bounds, lo, hi, n=10):
     s = set()
     for b in bounds:
@@ -183,34 +219,21 @@ class Check(PropertyCheck):
         if k == "trunc":
             flows, data, bounds = self.file_for(case)
             canon = [state_canon(f.get_state()) for f in flows]
-            ids = [(f.id, f.type) for f in flows]
             lo, hi = case["lo"], min(case["hi"], len(data))
             r = random.Random(case["lo"] * 7919 + len(data))
-            full = set(sample_offsets(r, bounds, lo, hi, 6))
             bad, seen = [], {}
+            # record boundaries from the framing itself (independent of where the writer says it stood) and from the inputs:
+            # as many records as flows were handed to the writer
+            fb = frame_bounds(data)
+            if fb != bounds or len(bounds) - 1 != len(flows):
+                bad.append([-1, f"the writer reports record boundaries {bounds[:6]}, the framing of the file gives {None if fb is None else fb[:6]} for {len(flows)} flows"])
+                fb = fb or bounds
             for off in range(lo, hi + 1):
-                ek, on_boundary = expected_at(bounds, off)
-                if off in full:
-                    res, states = run_reader(io.BytesIO(data[:off]), want_states=True)
-                    same = [state_canon(s) for s in states] == canon[:len(states)]
-                else:
-                    got = []
-                    res = [0, "clean"]
-                    try:
-                        for f in mio.FlowReader(io.BytesIO(data[:off])).stream():
-                            got.append((f.id, f.type))
-                    except exceptions.FlowReadException:
-                        res[1] = "flowRead"
-                    except CaseTimeout:
-                        raise
-                    except BaseException as e:  # noqa
-                        res[1] = "other:" + type(e).__name__
-                    res[0] = len(got)
-                    same = got == ids[:len(got)]
+                ek, on_boundary = expected_at(fb, off)
+                res, states = run_reader(io.BytesIO(data[:off]), want_states=True)
+                same = [state_canon(x) for x in states] == canon[:len(states)]      # full states, at every offset
                 seen[off] = f"{res[0]}:{res[1]}"
-                # the statement allows either ending ("either ends cleanly or reports a flow-read error"); which of the
-                # two happens (clean iff the cut is on a record boundary) is what the model predicts and the tie compares
-                if res[0] != ek or res[1] not in ("clean", "flowRead") or not same:
+                if not judge_cut(ek, res, same):
                     if len(bad) < 5:
                         bad.append([off, f"read {res[0]} flows, end={res[1]}, flows-equal={same}; expected exactly the {ek} completely written flows, then a clean end or FlowReadException"])
             tie = sample_offsets(r, bounds, lo, hi, 8)
